@@ -878,6 +878,59 @@ def roundtrip_oracle(chk, UWG, m, origin, counters):
     return bad
 
 
+
+def cover_boundary_probe(chk, UWG, plain, kwnames):
+    """Pure-Python route probe (needs no model): runs also when the regenerated setter table is not recognised."""
+    # boundary probe: cover sums that are exactly 1 in decimal and whose double sum depends on the
+    # order of the operands: every route must reach the same verdict (accept or reject)
+    wits, wits2 = [], []
+    for a in range(1, 99):
+        for b in range(1, 99 - a):
+            c = 100 - a - b
+            x, y, z = a / 100, b / 100, c / 100
+            if len({(z + x) + y <= 1, (y + x) + z <= 1, (x + z) + y <= 1}) > 1:
+                wits.append((x, y, z))
+            # (round 8) ... or on the FORM of the test: "what is left for this cover" (v <= 1 - the other two)
+            elif len({(x + y) + z <= 1, z <= 1 - x - y, z <= 1 - y - x, y <= 1 - x - z, y <= 1 - z - x,
+                      x <= 1 - y - z, x <= 1 - z - y}) > 1:
+                wits2.append((x, y, z))
+    nprobe, bprobe = 0, 0
+    for (x, y, z) in wits[:6] + wits[-6:] + wits2[:4] + wits2[-4:] + chk.rng.sample(wits2, min(8, len(wits2))):
+        d = dict(plain)
+        d['blddensity'], d['treecover'], d['grasscover'] = x, y, z
+        kwv = {n: d[n] for n in kwnames}
+        outcome = {}
+        for name, f in (('from_param_args', lambda: UWG.from_param_args(**kwv)),
+                        ('from_dict', lambda: UWG.from_dict(d))):
+            try:
+                with quiet():
+                    m = f()
+                outcome[name] = 'accepted'
+                try:
+                    with quiet():
+                        UWG.from_dict(m.to_dict())
+                    outcome[name + ';round-trip'] = 'accepted'
+                except AssertionError:
+                    outcome[name + ';round-trip'] = 'AssertionError'
+            except AssertionError:
+                outcome[name] = 'AssertionError'
+        nprobe += 1
+        chk.measurements['cover_sum_boundary_probe'] = {
+            'blddensity': x, 'treecover': y, 'grasscover': z, 'outcome': outcome}
+        if len(set(outcome.values())) > 1:
+            bprobe += 1
+            if bprobe <= 2:
+                chk.violation('impl-violation', 'routes disagree at the cover-sum boundary (float order of the '
+                              'sum assertion differs between setters)',
+                              case={'blddensity': x, 'treecover': y, 'grasscover': z}, observed=outcome,
+                              expected='the same verdict on every route and after to_dict/from_dict')
+    chk.direct('cover-sum-boundary(routes agree)', nprobe, nprobe,
+               'ratios summing to exactly 1 in decimal whose double-precision sum depends on operand order '
+               '(%d such triples of hundredths; 12 probed), or on whether the test is written as a sum or as "what is '
+               'left for this cover" (v <= 1 - the other two; %d more triples, 16 probed): from_param_args, from_dict and '
+               'the round trip must all accept or all reject' % (len(wits), len(wits2)), mismatches=bprobe)
+
+
 def tie_dict(chk, uwg, kinds, xtab):
     UWG = uwg.UWG
     from uwg import utilities
@@ -1125,49 +1178,7 @@ def tie_dict(chk, uwg, kinds, xtab):
                'the serialised ones) equal', mismatches=bad)
     chk.measurements['json_text_bytes_round_tripped'] = counters.get('json_bytes', 0)
 
-    # boundary probe: cover sums that are exactly 1 in decimal and whose double sum depends on the
-    # order of the operands: every route must reach the same verdict (accept or reject)
-    wits = []
-    for a in range(1, 99):
-        for b in range(1, 99 - a):
-            c = 100 - a - b
-            x, y, z = a / 100, b / 100, c / 100
-            if len({(z + x) + y <= 1, (y + x) + z <= 1, (x + z) + y <= 1}) > 1:
-                wits.append((x, y, z))
-    nprobe, bprobe = 0, 0
-    for (x, y, z) in wits[:6] + wits[-6:]:
-        d = dict(plain)
-        d['blddensity'], d['treecover'], d['grasscover'] = x, y, z
-        kwv = {n: d[n] for n in kwnames}
-        outcome = {}
-        for name, f in (('from_param_args', lambda: UWG.from_param_args(**kwv)),
-                        ('from_dict', lambda: UWG.from_dict(d))):
-            try:
-                with quiet():
-                    m = f()
-                outcome[name] = 'accepted'
-                try:
-                    with quiet():
-                        UWG.from_dict(m.to_dict())
-                    outcome[name + ';round-trip'] = 'accepted'
-                except AssertionError:
-                    outcome[name + ';round-trip'] = 'AssertionError'
-            except AssertionError:
-                outcome[name] = 'AssertionError'
-        nprobe += 1
-        chk.measurements['cover_sum_boundary_probe'] = {
-            'blddensity': x, 'treecover': y, 'grasscover': z, 'outcome': outcome}
-        if len(set(outcome.values())) > 1:
-            bprobe += 1
-            if bprobe <= 2:
-                chk.violation('impl-violation', 'routes disagree at the cover-sum boundary (float order of the '
-                              'sum assertion differs between setters)',
-                              case={'blddensity': x, 'treecover': y, 'grasscover': z}, observed=outcome,
-                              expected='the same verdict on every route and after to_dict/from_dict')
-    chk.direct('cover-sum-boundary(routes agree)', nprobe, nprobe,
-               'ratios summing to exactly 1 in decimal whose double-precision sum depends on operand order '
-               '(%d such triples of hundredths; 12 probed): from_param_args, from_dict and the round trip must '
-               'all accept or all reject' % len(wits), mismatches=bprobe)
+    cover_boundary_probe(chk, UWG, plain, kwnames)
     return plain
 
 
@@ -2453,6 +2464,17 @@ def run(chk):
         tie_seventh_round(chk, uwg)
     else:
         chk.notes.append('generators for the dictionary/route ties need a fully recognised table; skipped')
+        # the search for a failing input goes on without the model: the shipped parameter values with the three cover
+        # fractions at the exact-sum boundary, through the keyword route, the dictionary route and the round trip
+        try:
+            with quiet():
+                base = uwg.UWG.from_param_file(os.path.join(core.REPO, 'resources', 'initialize_singapore.uwg'),
+                                               epw_path=os.path.join(core.REPO, 'resources', 'SGP_Singapore.486980_IWEC.epw'))
+                plain0 = base.to_dict()
+            kw0 = [n for n in xtab['kw'] if n in plain0]
+            cover_boundary_probe(chk, uwg.UWG, plain0, kw0)
+        except Exception as e:  # noqa: BLE001
+            chk.notes.append('cover-sum probe without the model could not run: %s %s' % (type(e).__name__, str(e)[:120]))
     tie_circumstances(chk, uwg, kinds, xtab)
     chk.assumptions += [
         'csv/open layer (line endings, quoting) is exercised by the generators, not by the theorems: the '
